@@ -58,7 +58,7 @@ func H16a() {
 			} else if start < k {
 				begunFld++
 			}
-		case vKindUnknownMsg:
+		case vKindUnknownMsg, vKindCompUnknown:
 			if e <= k {
 				doneMsg++
 			} else if start < k {
@@ -102,11 +102,13 @@ func vRecLen(kind int) int {
 	switch kind {
 	case vKindRecord, vKindCompressed:
 		return 6
-	case vKindUnknownMsg:
+	case vKindUnknownMsg, vKindCompUnknown:
 		return 3
 	case vKindUnknownFld:
 		return 9
-	case vKindDevField:
+	case vKindDevField, vKindDevField2:
+		return 5
+	case vKindCompFileId:
 		return 4
 	}
 	return 9 // lap, activity
